@@ -35,7 +35,10 @@ SOURCES = [
     # sort_expr with options) belongs to that render only
     '|<dtml-in m mapping sort="k/cf"><dtml-var k></dtml-in>|<dtml-in m mapping sort_expr="sx"><dtml-var k></dtml-in>'
     '|<dtml-in m mapping sort="j/cf,k/cmp/desc"><dtml-var k></dtml-in>',
+    # a text that does not parse: every rendering raises ParseError, however the object came to hold it
+    'never shown <dtml-if a>x<dtml-var a>',
 ]
+BAD = len(SOURCES)
 
 
 def cf_asc(a, b):
@@ -129,6 +132,15 @@ def fresh(b, d, i):
     return _fresh[key]
 
 
+def quiet(f):
+    """an editing operation on a text that does not parse raises ParseError to its caller; the object stays usable"""
+    from DocumentTemplate.DT_Util import ParseError
+    try:
+        f()
+    except ParseError:
+        pass
+
+
 def run_history(h):
     """returns None or a dict describing the first departure"""
     from DocumentTemplate.DT_HTML import HTML
@@ -167,12 +179,12 @@ def run_history(h):
         elif op == 'deepcopy':
             t = copy.deepcopy(t)
         elif op == 'munge':
-            t.munge(SOURCES[arg - 1])
+            quiet(lambda: t.munge(SOURCES[arg - 1]))
         elif op == 'defaults':
             cur_defaults = 'd1' if arg else 'empty'
-            t.munge(None, defaults(cur_defaults))
+            quiet(lambda: t.munge(None, defaults(cur_defaults)))
         elif op == 'cook':
-            t.cook()
+            quiet(t.cook)
         for j, n in enumerate(nss):
             if plain(n) != pristine[j]:
                 return {'step': step, 'op': [op, arg], 'why': 'caller data of namespace %d modified' % (j + 1),
@@ -222,7 +234,7 @@ def run_file_history(h):
                 else:
                     t = copy.deepcopy(t)
             elif op == 'cook':
-                t.cook()
+                quiet(t.cook)
             elif op == 'editfile':
                 disk = disk % len(SOURCES) + 1
                 write(disk)
@@ -242,9 +254,9 @@ def replay(h):
 
 
 def explore(maxlen, filebacked, simulate=None, seed=None):
-    cfg = ('CONSTANTS\n NSources = %d\n NNamespaces = 3\n MaxLen = %d\n FileBacked = %s\nSPECIFICATION Spec\n'
+    cfg = ('CONSTANTS\n NSources = %d\n NNamespaces = 3\n MaxLen = %d\n FileBacked = %s\n Bad = %d\nSPECIFICATION Spec\n'
            'INVARIANT NoStaleBlocks\nINVARIANT Export\nPROPERTY FreshEqual\nCHECK_DEADLOCK FALSE\n'
-           % (len(SOURCES), maxlen, 'TRUE' if filebacked else 'FALSE'))
+           % (len(SOURCES), maxlen, 'TRUE' if filebacked else 'FALSE', BAD))
     if simulate:
         cfg = cfg.replace('PROPERTY FreshEqual\n', '')
     out = []
@@ -288,7 +300,7 @@ def main(tier):
            'traces_validated_against_impl': V.counters.get('histories_conform', 0), 'histories': len(uniq),
            'exhaustive': True,
            'rule': 'every history of the tier length (3 quick / 4 thorough) over {render ns 1..3, pickle round trip, deep copy, '
-                   'munge to source 1..4 (one of them empty), replace defaults (empty / other), cook} from each of 4 sources, '
+                   'munge to source 1..5 (one of them empty, one that does not parse), replace defaults (empty / other), cook} from each of 5 sources, '
                    'and simulated histories of length 8; the same for file-backed templates with edits of the file on disk',
            'samples': [uniq[0]['hist'], uniq[-1]['hist']]}
     return V.finish(cov, assumptions=['the result expected for a key <<source, defaults, namespace>> is what a freshly '
